@@ -363,3 +363,9 @@ func init() {
 	addMutant(Mutant{Name: "c12-multikey-by-value-unchecked", Property: "C12", File: "ytypes/list.go",
 		Old: "if !nv.IsValid() || (fv.Type().Kind() != reflect.Ptr && fv.IsZero()) {", New: "if !nv.IsValid() {", Expect: "makeKeyForInsert:key-field-copy"})
 }
+
+func init() {
+	// R-UNION-CONV (C01)
+	addMutant(Mutant{Name: "c01-wrapper-binary-arm-dropped", Property: "C01", File: "gogen/gogen.go",
+		Old: "\t{{ if eq $type \"Binary\" -}}\n\tcase []byte:\n\t\t// Unmarshalling hands a binary value over as a plain byte slice.\n\t\treturn &{{ $intfName }}_{{ $typeName }}{v}, nil\n\t{{ end -}}\n", New: "", Expect: "unionHelper:arm(Ybinary)"})
+}
